@@ -468,30 +468,419 @@ Proof.
     eapply handle_repaired; eauto.
 Qed.
 
+Lemma iter_ret_inv a r s s' : sinv s -> s_iter a r s = IRet s' -> sinv s' /\ s_mu s' <= s_mu s.
+Proof.
+  intros [Hn Hb] E. unfold s_iter in E.
+  destruct (need s <? 0).
+  - destruct (find0 (sbuf s) 0); [destruct (s_handle _ _ _ _); discriminate|].
+    destruct (blen (sbuf s) >? 255); inversion E; subst s'; [|split; [split; assumption|lia]].
+    split; [split; [|exact Hb]|].
+    + unfold need_ok in *. cbn. destruct r; [exact I|exact Hn].
+    + unfold s_mu. cbn. destruct r, (sopen s), (shandler_eqb (sh s) H5Host); cbn; lia.
+  - destruct (blen (sbuf s) >=? need s); [destruct (s_handle _ _ _ _); discriminate|].
+    inversion E; subst s'. split; [split; assumption|lia].
+Qed.
+
 Lemma s_loop_repaired a fuel : forall s it, sinv s -> rinv s -> s_mu s < Z.of_nat fuel ->
   match s_loop a true fuel s it with
-  | LDone s' it' => sinv s' /\ rinv s' /\ it <= it' <= it + s_mu s + 1
+  | LDone s' it' => sinv s' /\ rinv s' /\ it <= it' <= it + (s_mu s - s_mu s') + 1
   | LRaised _ | LFuel => False
   end.
 Proof.
   induction fuel as [|f IH]; intros s it Hi Hr Hf.
   - pose proof (s_mu_nonneg s). lia.
   - pose proof (s_mu_nonneg s) as M0. cbn [s_loop].
-    destruct (sh s) eqn:Hsh; try (repeat split; try assumption; lia).
+    destruct (sh s) eqn:Hsh; try (split; [exact Hi|split; [exact Hr|lia]]).
     all: assert (Hnn : sh s <> HNone) by (rewrite Hsh; discriminate).
     all: pose proof (iter_repaired a s Hr Hnn) as R.
     all: destruct (s_iter a true s) as [s'|s'|] eqn:E; try contradiction.
-    all: try (destruct (iter_progress a true s s' Hi (or_intror (Hr Hnn)) Hnn E) as [Hi' Hm];
-              specialize (IH s' (it + 1) Hi' R ltac:(lia));
-              destruct (s_loop a true f s' (it + 1)); try contradiction;
-              destruct IH as (I1 & I2 & I3); repeat split; try assumption; lia).
-    (* IRet: the state is s itself or s closed: invariants kept *)
-    all: unfold s_iter in E; destruct (need s <? 0);
-      [ destruct (find0 (sbuf s) 0); [destruct (s_handle _ _ _ _); discriminate|];
-        destruct (blen (sbuf s) >? 255); inversion E; subst s'
-      | destruct (blen (sbuf s) >=? need s); [destruct (s_handle _ _ _ _); discriminate|];
-        inversion E; subst s' ].
-    all: repeat split; try assumption; try lia.
-    all: try (destruct Hi as [Hn Hb]; unfold need_ok; cbn; exact I).
-    all: try (destruct Hi as [Hn Hb]; exact Hb).
+    all: try (destruct (iter_ret_inv a true s s' Hi E) as [J1 J2]; split; [exact J1|split; [exact R|lia]]).
+    all: destruct (iter_progress a true s s' Hi (or_intror (Hr Hnn)) Hnn E) as [Hi' Hm];
+      specialize (IH s' (it + 1) Hi' R ltac:(lia));
+      destruct (s_loop a true f s' (it + 1)); try contradiction;
+      destruct IH as (I1 & I2 & I3); (split; [exact I1|split; [exact I2|lia]]).
+Qed.
+
+Lemma sinv_init : sinv socks_init.
+Proof. split; [reflexivity|constructor]. Qed.
+
+Lemma rinv_init : rinv socks_init.
+Proof. intros _. reflexivity. Qed.
+
+(* the repaired forwarder never lets an exception out and never spins, with or without asserts, whatever the
+   chunks; the total number of loop iterations is linear in the bytes received (amortised over chunks) *)
+Lemma s_run_repaired a : forall chunks s tot, sinv s -> rinv s -> Forall bytes_ok chunks ->
+  match s_run a true s chunks tot with
+  | LDone s' tot' => sinv s' /\ rinv s' /\
+                     tot <= tot' <= tot + (s_mu s - s_mu s') + 2 * blen (concat chunks) + Z.of_nat (length chunks)
+  | LRaised _ | LFuel => False
+  end.
+Proof.
+  induction chunks as [|c r IH]; intros s tot Hi Hr Hc; cbn [s_run].
+  - cbn. split; [exact Hi|split; [exact Hr|unfold blen; simpl; lia]].
+  - inversion Hc as [|? ? Hc1 Hcr]; subst.
+    pose proof (blen_nonneg c) as Bc. pose proof (blen_nonneg (concat r)) as Br.
+    assert (Hcat : blen (concat (c :: r)) = blen c + blen (concat r)) by (cbn [concat]; apply blen_app).
+    destruct (negb (sopen s)).
+    + split; [exact Hi|split; [exact Hr|]]. rewrite Hcat. cbn [length]. lia.
+    + unfold s_feed. set (s1 := s_buf s (sbuf s ++ c)).
+      assert (Hi1 : sinv s1) by (destruct Hi; split; [assumption|apply Forall_app; split; assumption]).
+      assert (Hr1 : rinv s1) by exact Hr.
+      pose proof (s_mu_nonneg s1) as M0.
+      pose proof (s_loop_repaired a (S (Z.to_nat (s_mu s1))) s1 0 Hi1 Hr1 ltac:(lia)) as T.
+      assert (M : s_mu s1 = s_mu s + 2 * blen c).
+      { unfold s_mu, s1. cbn [sbuf s_buf sopen sh]. rewrite blen_app. lia. }
+      destruct (s_loop a true _ s1 0) as [s2 it2| |]; try contradiction.
+      destruct T as (T1 & T2 & T3).
+      specialize (IH s2 (tot + it2) T1 T2 Hcr).
+      destruct (s_run a true s2 r (tot + it2)); try contradiction.
+      destruct IH as (I1 & I2 & I3). split; [exact I1|split; [exact I2|]].
+      rewrite Hcat. cbn [length]. rewrite Nat2Z.inj_succ. lia.
+Qed.
+
+(* ---------------------------------------------------------------------------------------- *)
+(* 4. banner / version reader *)
+
+Lemma find_lf_spec l : forall i lim j, find_lf l i lim = Some j -> i <= j < lim /\ j < i + blen l.
+Proof.
+  induction l as [|b r IH]; intros i lim j H; simpl in H; [discriminate|].
+  replace (blen (b :: r)) with (blen r + 1) by (unfold blen; simpl length; lia).
+  pose proof (blen_nonneg r).
+  destruct (Z.leb_spec lim i); [discriminate|].
+  destruct (b =? 10); [inversion H; lia|]. apply IH in H. lia.
+Qed.
+
+Definition binv (lim : blimits) (s : bstate) : Prop :=
+  0 <= blines s <= max_lines lim + 1 /\
+  (bclosed s = BOpen -> blines s <= max_lines lim) /\
+  0 <= bconsumed s <= (blines s + 1) * max_line lim /\
+  (bclosed s = BOpen -> bver s = None -> bconsumed s <= blines s * max_line lim).
+
+Lemma b_step_facts lim cl s b s' :
+  0 < max_line lim -> 0 <= max_lines lim ->
+  binv lim s -> bclosed s = BOpen -> bver s = None -> b_step lim cl s = (b, s') ->
+  binv lim s' /\ blen (bbuf s') <= blen (bbuf s) /\
+  (b = true -> blen (bbuf s') < blen (bbuf s) /\ (bver s' = None -> bclosed s' = BOpen)) /\
+  (b = false -> bclosed s' = BOpen -> bver s' = None /\ blen (bbuf s') < max_line lim).
+Proof.
+  intros HL HN (I1 & I2 & I3 & I4) Ho Hv H. specialize (I2 Ho). specialize (I4 Ho Hv).
+  unfold b_step in H.
+  destruct (find_lf (bbuf s) 0 (max_line lim)) as [idx|] eqn:F.
+  - apply find_lf_spec in F.
+    assert (Hsk : blen (skipn (Z.to_nat (idx + 1)) (bbuf s)) = blen (bbuf s) - (idx + 1))
+      by (apply blen_skipn; lia).
+    unfold b_close in H. rewrite Ho in H. cbn [bbuf blines bclosed bver bconsumed] in H.
+    unfold binv.
+    repeat match type of H with context [if ?c then _ else _] => destruct c eqn:? end;
+      inversion H; subst b s'; clear H; cbn [bbuf blines bclosed bver bconsumed];
+      rewrite ?Ho, ?Hv, ?Hsk;
+      repeat match goal with
+             | |- _ /\ _ => split
+             | |- (_ = _) -> _ => intro
+             end; try discriminate; try congruence; try lia; try nia.
+  - destruct (Z.geb_spec (blen (bbuf s)) (max_line lim)); inversion H; subst b s'; clear H;
+      unfold binv, b_close; rewrite ?Ho; cbn [bbuf blines bclosed bver bconsumed];
+      repeat match goal with
+             | |- _ /\ _ => split
+             | |- (_ = _) -> _ => intro
+             end; try discriminate; try congruence; try lia; auto.
+Qed.
+
+Lemma b_loop_facts lim cl : 0 < max_line lim -> 0 <= max_lines lim ->
+  forall fuel s it, binv lim s -> (bver s = None -> bclosed s = BOpen) -> blen (bbuf s) < Z.of_nat fuel ->
+  exists s' it', b_loop lim cl fuel s it = Some (s', it') /\ binv lim s' /\
+                 it <= it' <= it + (blen (bbuf s) - blen (bbuf s')) + 1 /\
+                 (bclosed s' = BOpen -> bver s' = None -> blen (bbuf s') < max_line lim).
+Proof.
+  intros HL HN. induction fuel as [|f IH]; intros s it Hi Hvo Hf.
+  - pose proof (blen_nonneg (bbuf s)). lia.
+  - cbn [b_loop]. destruct (bbuf s) as [|x rest] eqn:Eb.
+    + exists s, it. rewrite Eb. split; [reflexivity|split; [exact Hi|split; [lia|]]].
+      intros _ _. unfold blen; simpl; lia.
+    + rewrite <- Eb in *. destruct (bver s) as [v|] eqn:Ev.
+      * exists s, it. split; [reflexivity|split; [exact Hi|split; [lia|]]]. intros _ C. rewrite Ev in C. discriminate.
+      * specialize (Hvo eq_refl).
+        destruct (b_step lim cl s) as [b s1] eqn:Es.
+        destruct (b_step_facts lim cl s b s1 HL HN Hi Hvo Ev Es) as (J & Le & Ht & Hfalse).
+        destruct b.
+        -- destruct (Ht eq_refl) as [Lt Ho1].
+           destruct (IH s1 (it + 1) J Ho1 ltac:(lia)) as (s' & it' & Hr & J' & Hit & Hlast).
+           exists s', it'. split; [exact Hr|split; [exact J'|split; [lia|exact Hlast]]].
+        -- exists s1, (it + 1). split; [reflexivity|split; [exact J|split; [lia|]]].
+           intros C1 C2. apply (Hfalse eq_refl C1).
+Qed.
+
+Lemma binv_init lim : 0 < max_line lim -> 0 <= max_lines lim -> binv lim b_init.
+Proof.
+  intros HL HN. unfold binv, b_init; cbn [blines bclosed bver bconsumed].
+  repeat match goal with |- _ /\ _ => split | |- (_ = _) -> _ => intro end; lia.
+Qed.
+
+(* what holds after any sequence of chunks *)
+Definition bgood (lim : blimits) (s : bstate) : Prop :=
+  binv lim s /\ (bclosed s = BOpen -> bver s = None -> blen (bbuf s) < max_line lim).
+
+Lemma b_run_facts lim cl : 0 < max_line lim -> 0 <= max_lines lim ->
+  forall chunks s tot, bgood lim s ->
+  exists s' tot', b_run lim cl s chunks tot = Some (s', tot') /\ bgood lim s' /\
+                  tot <= tot' <= tot + blen (bbuf s) + blen (concat chunks) + Z.of_nat (length chunks).
+Proof.
+  intros HL HN. induction chunks as [|c r IH]; intros s tot Hg; pose proof Hg as [Hi Hb]; cbn [b_run].
+  - exists s, tot. split; [reflexivity|split; [split; assumption|]].
+    pose proof (blen_nonneg (bbuf s)). unfold blen at 2; simpl. lia.
+  - assert (Hcat : blen (concat (c :: r)) = blen c + blen (concat r)) by (cbn [concat]; apply blen_app).
+    pose proof (blen_nonneg c) as Bc. pose proof (blen_nonneg (concat r)) as Br.
+    pose proof (blen_nonneg (bbuf s)) as Bs.
+    unfold b_feed.
+    destruct (bclosed s) eqn:Ec; [destruct (bver s) eqn:Ev|..].
+    2: { set (s1 := mkB (bbuf s ++ c) (blines s) BOpen None (bconsumed s)).
+         assert (Hi1 : binv lim s1).
+         { unfold binv in *. cbn [s1 bbuf blines bclosed bver bconsumed]. rewrite Ec, Ev in Hi. exact Hi. }
+         assert (Hvo : bver s1 = None -> bclosed s1 = BOpen) by (intros _; reflexivity).
+         destruct (b_loop_facts lim cl HL HN (S (length (bbuf s1))) s1 0 Hi1 Hvo
+                     ltac:(unfold blen; lia)) as (s2 & it2 & Hr & J2 & Hit & Hlast).
+         rewrite Hr.
+         destruct (IH s2 (tot + it2) (conj J2 Hlast)) as (s' & tot' & Hr' & G' & Ht').
+         exists s', tot'. split; [exact Hr'|split; [exact G'|]].
+         assert (blen (bbuf s1) = blen (bbuf s) + blen c) by (unfold s1; cbn; apply blen_app).
+         pose proof (blen_nonneg (bbuf s2)).
+         rewrite Hcat. cbn [length]. rewrite Nat2Z.inj_succ. lia. }
+    all: destruct (IH s (tot + 0) Hg) as (s' & tot' & Hr' & G' & Ht');
+      exists s', tot'; (split; [exact Hr'|split; [exact G'|]]);
+      rewrite Hcat; cbn [length]; rewrite Nat2Z.inj_succ; lia.
+Qed.
+
+(* ---------------------------------------------------------------------------------------- *)
+(* 5. SFTP framing *)
+
+Lemma get_byte_ok_len body t p1 : get_byte (mkPk body 0) = Ok t p1 ->
+  pdata p1 = body /\ pidx p1 = 1 /\ 1 <= blen body.
+Proof.
+  unfold get_byte, get_bytes. cbn [pdata pidx]. destruct (Z.gtb_spec (0 + 1) (blen body)); [discriminate|].
+  cbn. intros Hq; inversion Hq; subst. cbn. repeat split; lia.
+Qed.
+
+Lemma get_uint32_ok_len p v p' : get_uint32 p = Ok v p' -> pidx p + 4 <= blen (pdata p).
+Proof.
+  unfold get_uint32, get_uint, get_bytes. destruct (Z.gtb_spec (pidx p + 4) (blen (pdata p))); [discriminate|].
+  intros _. lia.
+Qed.
+
+(* every iteration of recv_packets consumes at least 4 bytes (9 when the packet is accepted): the loop is
+   linear in the bytes received *)
+Lemma sftp_frames_bound fuel : forall buf acc it, bytes_ok buf -> blen buf < 4 * Z.of_nat fuel ->
+  exists acc' rest st it', sftp_frames fuel buf acc it = Some (acc', rest, st, it') /\
+     blen rest <= blen buf /\ it <= it' /\ 4 * (it' - it) <= blen buf - blen rest /\
+     9 * (Z.of_nat (length acc') - Z.of_nat (length acc)) <= blen buf - blen rest.
+Proof.
+  induction fuel as [|f IH]; intros buf acc it Hb Hf.
+  - pose proof (blen_nonneg buf). lia.
+  - cbn [sftp_frames]. pose proof (blen_nonneg buf) as B0.
+    destruct (Z.ltb_spec (blen buf) 4) as [L4|L4].
+    + exists acc, buf, FWait, it. split; [reflexivity|]. lia.
+    + set (n := be_val (firstn 4 buf)).
+      assert (Hn : 0 <= n) by (apply be_val_range, Forall_firstn, Hb).
+      destruct (Z.ltb_spec (blen buf - 4) n) as [Ln|Ln].
+      * exists acc, buf, FWait, it. split; [reflexivity|]. lia.
+      * assert (Hrest : blen (skipn (Z.to_nat (4 + n)) buf) = blen buf - (4 + n)) by (apply blen_skipn; lia).
+        assert (Hbody : blen (slice buf 4 n) = n) by (apply blen_slice; lia).
+        destruct (get_byte (mkPk (slice buf 4 n) 0)) as [t p1|p1] eqn:E1.
+        -- destruct (get_byte_ok_len _ _ _ E1) as (D1 & X1 & _).
+           destruct (get_uint32 p1) as [id p2|p2] eqn:E2.
+           ++ pose proof (get_uint32_ok_len _ _ _ E2) as L5. rewrite D1, X1, Hbody in L5.
+              destruct (IH (skipn (Z.to_nat (4 + n)) buf) (acc ++ [(t, id, slice (slice buf 4 n) 5 (n - 5))])
+                           (it + 1) (Forall_skipn _ _ _ Hb) ltac:(lia))
+                as (acc' & rest & st & it' & Hr & R1 & R2 & R3 & R4).
+              exists acc', rest, st, it'. split; [exact Hr|].
+              rewrite app_length in R4. cbn [length] in R4. lia.
+           ++ eexists acc, _, FBad, (it + 1). split; [reflexivity|]. lia.
+        -- eexists acc, _, FBad, (it + 1). split; [reflexivity|]. lia.
+Qed.
+
+Lemma sftp_feed_linear buf : bytes_ok buf ->
+  exists acc rest st it, sftp_feed buf = Some (acc, rest, st, it) /\
+    0 <= it /\ 4 * it <= blen buf /\ 9 * Z.of_nat (length acc) <= blen buf.
+Proof.
+  intros Hb. unfold sftp_feed.
+  destruct (sftp_frames_bound (S (length buf)) buf [] 0 Hb ltac:(unfold blen; lia))
+    as (acc & rest & st & it & Hr & R1 & R2 & R3 & R4).
+  exists acc, rest, st, it. split; [exact Hr|]. pose proof (blen_nonneg rest). cbn [length] in R4. lia.
+Qed.
+
+Definition u32b (n : Z) : bytes := [(n / 16777216) mod 256; (n / 65536) mod 256; (n / 256) mod 256; n mod 256].
+
+Lemma be_val_u32b n : 0 <= n < 4294967296 -> be_val (u32b n) = n.
+Proof. intros H. unfold be_val, u32b, be_acc. lia. Qed.
+
+(* the receive side enforces no maximum: any 32-bit length is waited for *)
+Lemma sftp_no_length_cap n body : 0 <= n < 4294967296 -> blen body < n ->
+  sftp_feed (u32b n ++ body) = Some ([], u32b n ++ body, FWait, 0).
+Proof.
+  intros Hn Hb. unfold sftp_feed. cbn [sftp_frames length app u32b].
+  assert (L : blen (u32b n ++ body) = 4 + blen body) by (rewrite blen_app; reflexivity).
+  change ((n / 16777216) mod 256 :: (n / 65536) mod 256 :: (n / 256) mod 256 :: n mod 256 :: body)
+    with (u32b n ++ body).
+  pose proof (blen_nonneg body).
+  destruct (Z.ltb_spec (blen (u32b n ++ body)) 4); [lia|].
+  assert (F : firstn 4 (u32b n ++ body) = u32b n) by reflexivity.
+  rewrite F, be_val_u32b by exact Hn.
+  destruct (Z.ltb_spec (blen (u32b n ++ body) - 4) n); [reflexivity|lia].
+Qed.
+
+(* ---------------------------------------------------------------------------------------- *)
+(* 6. copy-data *)
+
+Lemma copy_loop_stop f same sz roff woff it w :
+  copy_loop f same sz roff 0 woff false it w = CDone it w.
+Proof. destruct f; reflexivity. Qed.
+
+(* distinct files: the loop ends after at most (bytes available)/block + 1 reads, having written no more than
+   the source holds past the offset *)
+Lemma copy_loop_distinct fuel : forall sz roff len woff to_end it w,
+  (to_end = false -> 0 <= len) ->
+  Z.max 0 (sz - roff) / COPY_BLOCK + 1 < Z.of_nat fuel ->
+  exists it' w', copy_loop fuel false sz roff len woff to_end it w = CDone it' w' /\
+                 it <= it' <= it + Z.max 0 (sz - roff) / COPY_BLOCK + 1 /\
+                 w <= w' <= w + Z.max 0 (sz - roff).
+Proof.
+  unfold COPY_BLOCK.
+  induction fuel as [|f IH]; intros sz roff len woff to_end it w Hlen Hf.
+  - lia.
+  - cbn [copy_loop]. unfold COPY_BLOCK.
+    destruct (to_end || negb (len =? 0)) eqn:C.
+    2: { exists it, w. split; [reflexivity|]. lia. }
+    cbn [andb]. 
+    set (size := if to_end then 262144 else Z.min len 262144).
+    assert (Hs : 1 <= size <= 262144).
+    { unfold size. destruct to_end; [lia|]. cbn in C. apply negb_true_iff, Z.eqb_neq in C.
+      specialize (Hlen eq_refl). lia. }
+    set (got := Z.max 0 (Z.min size (sz - roff))).
+    destruct (Z.ltb_spec got size) as [G|G].
+    + exists (it + 1), (w + got). split; [reflexivity|]. unfold got in *. lia.
+    + assert (Hg : got = size) by (unfold got in *; lia).
+      assert (Hav : size <= sz - roff) by (unfold got in *; lia).
+      destruct (Z.eq_dec size 262144) as [E|E].
+      * assert (Hlen' : to_end = false -> 0 <= (if to_end then len else len - size)).
+        { intros ->. unfold size in *. specialize (Hlen eq_refl). lia. }
+        destruct (IH sz (roff + size) (if to_end then len else len - size) (woff + size) to_end
+                     (it + 1) (w + got) Hlen' ltac:(lia)) as (it' & w' & Hr & Hi & Hw).
+        exists it', w'. split; [exact Hr|]. lia.
+      * assert (to_end = false /\ size = len) as [-> El] by (unfold size in *; destruct to_end; lia).
+        replace (len - size) with 0 by lia. rewrite copy_loop_stop.
+        exists (it + 1), (w + got). split; [reflexivity|]. lia.
+Qed.
+
+(* the same file as source and destination, read to the end, write offset at least one block ahead of the
+   read offset and at least one block of data: the loop never ends; it writes one more block per unit of
+   fuel *)
+Lemma copy_loop_same_spins fuel : forall sz roff woff len it w,
+  COPY_BLOCK <= sz - roff -> COPY_BLOCK <= woff - roff ->
+  copy_loop fuel true sz roff len woff true it w = CFuel (w + COPY_BLOCK * Z.of_nat fuel).
+Proof.
+  unfold COPY_BLOCK.
+  induction fuel as [|f IH]; intros sz roff woff len it w H1 H2.
+  - cbn. f_equal. lia.
+  - cbn [copy_loop orb]. unfold COPY_BLOCK.
+    replace (Z.max 0 (Z.min 262144 (sz - roff))) with 262144 by lia.
+    cbn [andb]. replace (0 <? 262144) with true by reflexivity. replace (262144 <? 262144) with false by reflexivity.
+    rewrite IH by lia. f_equal. lia.
+Qed.
+
+(* ---------------------------------------------------------------------------------------- *)
+(* 7. the clear-text receive loop (model owned by C02): every handler call that keeps the loop going lowers
+      2*|buffer| + (8 while a header is held) by at least 8, whatever the packet_length field says
+      (including the negative-remainder case of a length below 4, where no byte is consumed but the
+      handler changes) *)
+
+Definition rmu (s : Packet.rstate) : Z :=
+  2 * Packet.zlen (Packet.inbuf s) + match Packet.phase s with Packet.PBody _ _ => 8 | Packet.PHdr => 0 end.
+
+Lemma recv_step_progress s s' : Packet.recv_step s = Some s' -> rmu s' + 8 <= rmu s.
+Proof.
+  unfold Packet.recv_step, rmu. destruct (Packet.failed s); [discriminate|].
+  destruct (Packet.phase s) as [|first n]; intros H.
+  - destruct (Z.ltb_spec (Packet.zlen (Packet.inbuf s)) Packet.BS) as [E|E]; [discriminate|].
+    injection H as <-. cbn [Packet.inbuf Packet.phase]. unfold Packet.zlen in *.
+    change (match Packet.inbuf s with
+            | _ :: _ :: _ :: _ :: _ :: _ :: _ :: _ :: l6 => l6
+            | _ => []
+            end) with (skipn 8 (Packet.inbuf s)).
+    rewrite skipn_length. unfold Packet.BS in *. lia.
+  - destruct (Z.ltb_spec (Packet.zlen (Packet.inbuf s)) (4 + n - Packet.BS)) as [E|E]; [discriminate|].
+    destruct (4 + n - Packet.BS <? 0) eqn:R;
+      destruct (Packet.py_payload _); injection H as <-; cbn [Packet.inbuf Packet.phase];
+      unfold Packet.zlen in *; rewrite skipn_length; unfold Packet.BS in *; lia.
+Qed.
+
+Lemma recv_count_linear fuel : forall s, 0 <= recv_count fuel s /\ 8 * recv_count fuel s <= rmu s.
+Proof.
+  induction fuel as [|f IH]; intros s; cbn [recv_count].
+  - unfold rmu, Packet.zlen. destruct (Packet.phase s); lia.
+  - assert (R0 : 0 <= rmu s) by (unfold rmu, Packet.zlen; destruct (Packet.phase s); lia).
+    destruct (Packet.inbuf s) eqn:E; [lia|].
+    destruct (Packet.recv_step s) as [s'|] eqn:Es; [|lia].
+    pose proof (recv_step_progress s s' Es). specialize (IH s'). lia.
+Qed.
+
+(* recv_count really counts the iterations of Packet.recv_loop: both follow the same steps *)
+Lemma recv_count_follows fuel : forall s,
+  recv_count fuel s = 0 -> Packet.recv_loop fuel s = s.
+Proof.
+  induction fuel as [|f IH]; intros s H; cbn [recv_count Packet.recv_loop] in *; [reflexivity|].
+  destruct (Packet.inbuf s); [reflexivity|].
+  destruct (Packet.recv_step s) as [s'|]; [|reflexivity].
+  pose proof (recv_count_linear f s'). lia.
+Qed.
+
+(* ---------------------------------------------------------------------------------------- *)
+(* 8. the channel send loop (model and lemmas owned by C08), restated for C10 *)
+
+Lemma flush_progress fuel buf win pktsize out :
+  1 <= pktsize -> 0 <= win -> ChannelProofs.nonempty_entries buf ->
+  (Z.to_nat (Channel.buf_len buf) + length buf < fuel)%nat ->
+  Channel.flush_loop fuel buf win pktsize out <> None.
+Proof. apply ChannelProofs.flush_loop_terminates. Qed.
+
+Lemma flush_stuck fuel dt d rest win out :
+  d <> [] -> 0 < win -> Channel.flush_loop fuel ((dt, d) :: rest) win 0 out = None.
+Proof. apply ChannelProofs.flush_loop_zero_pktsize. Qed.
+
+(* ---------------------------------------------------------------------------------------- *)
+(* summary lemma for the getters *)
+
+Lemma get_mpint_post p : wf p -> bytes_ok (pdata p) -> post p 4 (get_mpint p).
+Proof.
+  intros Hw Hb. unfold get_mpint. replace 4 with (4 + 0) by lia.
+  apply post_bind; [lia|apply get_string_post; assumption|].
+  intros v p' E H. apply post_ok. unfold wf. rewrite E. destruct Hw. lia.
+Qed.
+
+Lemma get_namelist_post p : wf p -> bytes_ok (pdata p) -> post p 4 (get_namelist p).
+Proof.
+  intros Hw Hb. unfold get_namelist. replace 4 with (4 + 0) by lia.
+  apply post_bind; [lia|apply get_string_post; assumption|].
+  intros v p' E H. apply post_ok. unfold wf. rewrite E. destruct Hw. lia.
+Qed.
+
+Lemma getters_safe p : wf p -> bytes_ok (pdata p) ->
+  post p 1 (get_byte p) /\ post p 1 (get_boolean p) /\ post p 2 (get_uint16 p) /\ post p 4 (get_uint32 p) /\
+  post p 8 (get_uint64 p) /\ post p 4 (get_string p) /\ post p 4 (get_mpint p) /\ post p 4 (get_namelist p).
+Proof.
+  intros Hw Hb. repeat split.
+  - apply get_byte_post, Hw.
+  - apply get_boolean_post, Hw.
+  - apply get_uint_post; [exact Hw|lia].
+  - apply get_uint_post; [exact Hw|lia].
+  - apply get_uint_post; [exact Hw|lia].
+  - apply get_string_post; assumption.
+  - apply get_mpint_post; assumption.
+  - apply get_namelist_post; assumption.
+Qed.
+
+Lemma check_end_spec p : wf p ->
+  match check_end p with Ok _ p' => p' = p /\ remaining p = 0 | Err p' => p' = p /\ 1 <= remaining p end.
+Proof.
+  intros Hw. unfold check_end. destruct (more p) eqn:M.
+  - split; [reflexivity|apply more_true; assumption].
+  - split; [reflexivity|]. unfold more in M. apply negb_false_iff, Z.eqb_eq in M. unfold remaining. lia.
 Qed.
